@@ -88,7 +88,7 @@ func cmdCheck(args []string) int {
 	}
 	loadT := time.Since(t0)
 	prog.cfg = runCfg{
-		BranchTimeoutMs: 2000, AssertTimeoutMs: 20000, MaxConcretize: 64, MaxSteps: 5000000, MaxAlloc: 1 << 16,
+		BranchTimeoutMs: 5000, AssertTimeoutMs: 20000, MaxConcretize: 64, MaxSteps: 5000000, MaxAlloc: 1 << 16,
 		MaxSymIndex: 512, SkipInit: map[string]bool{}, NoIntrinsic: map[string]bool{}, Thorough: thorough, NoSpeculate: cc.NoSpeculate,
 	}
 	if cc.AssertTimeoutS > 0 {
